@@ -394,6 +394,15 @@ def evaluate(ctx, cases, exact_upto):
                 ctx.count([c["f"], lo, hi, [None if (isinstance(v, float) and math.isnan(v)) else v for v in
                                             (p if c["kind"] == "1d" else sum(p, []))], c["th"]], nontriv)
                 bad = False
+                for nm_ in ("m0", "m1", "m2", "hm0", "tm01", "tm02"):
+                    if isinstance(b.get(nm_), list) and pi >= len(b[nm_]):
+                        ctx.oracle_fail("%s(%r, %r) returns %d values for a batch of more spectra: there is no value at the "
+                                        "position of spectrum %d (results are read by position)" % (nm_, lo, hi, len(b[nm_]), pi),
+                                        dict(rep, call=nm_))
+                        bad = True
+                        break
+                if bad:
+                    continue
                 for n in POWERS:
                     vi = C.unfx(b["fm"][n][pi])
                     if not C.close(vi, mb[n], RT, 1e-300, S[n]):
